@@ -1,4 +1,5 @@
 import TextxVerif.Proofs.Kwd
+import TextxVerif.Proofs.KwdSrc
 import TextxVerif.Proofs.CaseKw
 /-!
 # C21 — autokwd matches keyword-like literals only on word boundaries
@@ -195,6 +196,84 @@ example : litTok asciiCC ⟨true, true⟩ false "begin".toList (none, "BeGiN(".t
 example : litTok asciiCC ⟨true, true⟩ false "begin".toList (none, "BeGiNx".toList) = none :=
   C21_never_glued asciiCC true (fun _ => foldWordAll_ascii) _ (by decide +kernel) false none _ 'x' (by decide +kernel)
     (by decide +kernel)
+
+/-! ### literals as written in the grammar: quotes and escape sequences
+
+`visitStrMatch` is `visit_str_match` on the string token with its quotes; `litOfSrc` / `decodeEscapes` are
+`children[0][1:-1]` + `decode_escapes` (`Names` = Python's table for `\N{…}`, given as data). -/
+
+/-- **Written literals.** Whatever the spelling of a grammar literal (either quote, any escape
+sequences), the match object is the one of the *decoded* literal: keyword-likeness is decided on the
+literal that is matched, not on the text between the quotes. -/
+theorem C21_written_literal (cc : CharClasses) (names : Names) (cfg : Cfg) (tok l : List Char)
+    (hd : decodeEscapes names (unquote tok) = .ok l) :
+    visitStrMatch cc names cfg tok = .ok (compileLit cc cfg l) := by
+  simp [visitStrMatch, litOfSrc_eq, hd, Except.map]
+
+/-- two spellings of the same literal (or of the same decoding error) compile alike -/
+theorem C21_spelling_irrelevant (cc : CharClasses) (names : Names) (cfg : Cfg) (tok₁ tok₂ : List Char)
+    (h : decodeEscapes names (unquote tok₁) = decodeEscapes names (unquote tok₂)) :
+    visitStrMatch cc names cfg tok₁ = visitStrMatch cc names cfg tok₂ := by
+  simp [visitStrMatch, litOfSrc_eq, h]
+
+/-- a literal written without a backslash between any two quote characters denotes the text between them -/
+theorem C21_plain_spelling (names : Names) (q q' : Char) (body : List Char) (h : '\\' ∉ body) :
+    litOfSrc names (q :: (body ++ [q'])) = .ok body := by
+  rw [litOfSrc_eq]
+  have : unquote (q :: (body ++ [q'])) = body := by simp [unquote]
+  rw [this, decodeEscapes_plain names body h]
+
+/-- **Never glued, as written.** With autokwd, a grammar literal — however it is written — whose decoded value
+looks like an identifier compiles to a match that never matches when the next input character is a word
+character. -/
+theorem C21_never_glued_written (cc : CharClasses) (ic : Bool) (hfw : FoldWord cc ic) (names : Names)
+    (tok l : List Char) (hd : decodeEscapes names (unquote tok) = .ok l)
+    (hk : isKeywordLike cc ic l = true) (ug : Bool) (p : Option Char) (s : List Char) (c : Char)
+    (hnext : (s.drop l.length).head? = some c) (hc : cc.isWord c = true) :
+    ∃ t, visitStrMatch cc names ⟨true, ic⟩ tok = .ok t ∧ tokMatch cc ug t (p, s) = none :=
+  ⟨_, C21_written_literal cc names ⟨true, ic⟩ tok l hd, C21_never_glued cc ic hfw l hk ug p s c hnext hc⟩
+
+/-- a literal whose decoded value does not look like an identifier compiles alike with and without autokwd,
+and an invalid escape sequence is refused alike -/
+theorem C21_non_kwd_unchanged_written (cc : CharClasses) (ic : Bool) (names : Names) (tok : List Char)
+    (h : ∀ l, decodeEscapes names (unquote tok) = .ok l → isKeywordLike cc ic l = false) :
+    visitStrMatch cc names ⟨true, ic⟩ tok = visitStrMatch cc names ⟨false, ic⟩ tok := by
+  simp only [visitStrMatch, litOfSrc_eq]
+  cases hd : decodeEscapes names (unquote tok) with
+  | error e => rfl
+  | ok l => simp [Except.map, C21_non_kwd_unchanged cc ic l (h l hd)]
+
+/-- the decoder never runs out of fuel -/
+theorem C21_decode_total (names : Names) (s : List Char) : decodeEscapes names s ≠ .error .fuel :=
+  decodeEscapes_ne_fuel names s
+
+/-! non-vacuity: `'café'`, `'\x62egin'`, `"en\144"`, `'na\N{…}ve'` are the keywords café, begin, end, naïve -/
+def eCC : CharClasses := tableCC [] ['é', 'ï'] [] []
+local instance decEqExcept {ε α : Type} [DecidableEq ε] [DecidableEq α] : DecidableEq (Except ε α)
+  | .ok a, .ok b => if h : a = b then isTrue (by rw [h]) else isFalse (by intro e; injection e with e; exact h e)
+  | .error a, .error b => if h : a = b then isTrue (by rw [h]) else isFalse (by intro e; injection e with e; exact h e)
+  | .ok _, .error _ => isFalse (by intro e; cases e)
+  | .error _, .ok _ => isFalse (by intro e; cases e)
+example : litOfSrc [] "'caf\\u00e9'".toList = .ok "café".toList := by decide +kernel
+example : litOfSrc [] "'\\x62egin'".toList = .ok "begin".toList := by decide +kernel
+example : litOfSrc [] "\"en\\144\"".toList = .ok "end".toList := by decide +kernel
+example : litOfSrc [("LATIN SMALL LETTER I WITH DIAERESIS".toList, 'ï')]
+    "'na\\N{LATIN SMALL LETTER I WITH DIAERESIS}ve'".toList = .ok "naïve".toList := by decide +kernel
+example : litOfSrc [] "'a\\\\\\'\\tb\\d'".toList = .ok "a\\'\tb\\d".toList := by decide +kernel
+example : litOfSrc [] "'\\xZZ'".toList = .error .invalid := by decide +kernel
+example : litOfSrc [] "'\\N{NO SUCH NAME}'".toList = .error .invalid := by decide +kernel
+example : litOfSrc [] "'\\U00110000'".toList = .error .invalid := by decide +kernel
+example : litOfSrc [] "'\\ud800'".toList = .error .surrogate := by decide +kernel
+example : litOfSrc [] "'\\x4'".toList = .ok "\\x4".toList := by decide +kernel
+example : visitStrMatch eCC [] ⟨true, false⟩ "'caf\\u00e9'".toList =
+    .ok (.re (kwRe false "café".toList) (some "café".toList)) := by decide +kernel
+/-- … and through the theorem: the token of `'café'` does not match in `caféteria` -/
+example : ∃ t, visitStrMatch eCC [] ⟨true, false⟩ "'caf\\u00e9'".toList = .ok t ∧
+    tokMatch eCC false t (none, "caféteria".toList) = none :=
+  C21_never_glued_written eCC false (by intro h; cases h) [] _ "café".toList (by decide +kernel) (by decide +kernel)
+    false none _ 't' (by decide +kernel) (by decide +kernel)
+/-- a literal that is not keyword-like although it is written with an escape: `'a\tb'` -/
+example : visitStrMatch asciiCC [] ⟨true, false⟩ "'a\\tb'".toList = .ok (.str "a\tb".toList false) := by decide +kernel
 
 end Kwd
 
